@@ -246,6 +246,9 @@ where
                         let want = rule_accepts(cfg.lp_x, cfg.lp_y, cfg.q_fwd, cfg.q_back, u);
                         let class = if r.is_nan() { "ratio NaN" } else if r == F::infinity() { "ratio +inf" } else if r == F::neg_infinity() { "ratio -inf" } else if r > F::zero() { "ratio > 0" } else if r == F::zero() { "ratio = 0" } else { "ratio < 0" };
                         ctx.outcome(&format!("{} / {}", class, if acc { "accepted" } else { "rejected" }), 1);
+                        if k > 2 && k < g - 2 && r.is_finite() {
+                            ctx.sample_tagged("step at the accept/reject threshold", || json!({"input": case.clone(), "u": u.to64(), "log_ratio": r.to64(), "step_moved_to_y": acc, "rule_says_accept": want}));
+                        }
                         if acc != want {
                             ctx.violation(Violation::new(
                                 format!("C01:rule({})", class),
@@ -434,6 +437,7 @@ fn kernels(ctx: &Ctx) {
                 ctx.violation(Violation::new("C01:stationarity", format!("kernel '{name}' weights {w:?}: (pi P)[{y}] = {s}, pi[{y}] = {}", pi[y]), case.clone()));
             }
         }
+        ctx.sample_tagged("finite kernel", || json!({"weights": w, "q": q, "proposal": name, "implemented_acceptance_probabilities(#accepting variates / 2^24)": a}));
         ctx.outcome("kernels-checked", 1);
     }
 }
@@ -544,8 +548,6 @@ pub fn run(ctx: &Ctx) {
     histories(ctx);
     sweeps(ctx);
     kernels(ctx);
-    ctx.sample(json!({"step": {"lp_x": "ln 2", "lp_y": "ln 1", "q_fwd": "ln 1/2", "q_back": "ln 1/4", "u": "largest f32 variate with ln u < ratio, and its successor"}}));
-    ctx.sample(json!({"kernel": {"weights": [1, 0], "proposal": "one-directional", "pairs_swept": "all proposable (x,y), 2^24 variates each"}}));
     ctx.assume("the acceptance draw is injected through the public `rng` field (generator state crafted so that its next output is the chosen variate); the premise 'a step consumes exactly that output' is verified on every execution (failure = exit 2, not a verdict)");
     if ctx.outcome_count("kernels-checked") == 0 {
         ctx.machinery_error("vacuity guard: no finite kernel was checked");
